@@ -4,6 +4,7 @@
 //	vnode frpc <config file>
 //
 // Environment: VNODE_PERTURB=<seed> installs PRNG delays at every verifhook point;
+// VNODE_DELAY_AT=<hook point>:<ms> sleeps at one hook point;
 // VNODE_LOG=<level> sets frp's log level (stderr). SIGTERM stops the node gracefully.
 package main
 
@@ -14,7 +15,9 @@ import (
 	"os"
 	"os/signal"
 	"strconv"
+	"strings"
 	"syscall"
+	"time"
 
 	"github.com/fatedier/frp/client"
 	"github.com/fatedier/frp/pkg/config"
@@ -38,6 +41,13 @@ func main() {
 	if s := os.Getenv("VNODE_PERTURB"); s != "" {
 		seed, _ := strconv.ParseInt(s, 10, 64)
 		h.Perturb(rand.New(rand.NewSource(seed)), "")
+	}
+	// VNODE_DELAY_AT=<hook point>:<milliseconds> sleeps at that hook point (deterministic window widening)
+	if s := os.Getenv("VNODE_DELAY_AT"); s != "" {
+		if i := strings.LastIndexByte(s, ':'); i > 0 {
+			ms, _ := strconv.Atoi(s[i+1:])
+			h.OnHook(s[:i], "", func(string, []any) { time.Sleep(time.Duration(ms) * time.Millisecond) })
+		}
 	}
 	ctx, cancel := context.WithCancel(context.Background())
 	sig := make(chan os.Signal, 1)
